@@ -175,6 +175,25 @@ func (c *Checker) mismatch(cs *Case) (int, string, string, *RunResult) {
 	if c.NoModel {
 		return -1, "", "", r
 	}
+	if sp, ok := c.M.(splitter); ok {
+		for _, sub := range sp.Split(r) {
+			if len(sub.Obs) == 0 {
+				continue
+			}
+			mo, err := c.Model.Run(sub.CaseTok)
+			if err != nil {
+				return 0, "<model>", err.Error(), r
+			}
+			if i, a, b := Diff(sub.Obs, mo); i >= 0 {
+				g := len(r.Ops)
+				if i < len(sub.Steps) {
+					g = sub.Steps[i]
+				}
+				return g, a, b, r
+			}
+		}
+		return -1, "", "", r
+	}
 	mo, err := c.Model.Run(r.CaseTok)
 	if err != nil {
 		return 0, "<model>", err.Error(), r
